@@ -118,5 +118,48 @@ func stressSameFile(rep *stressReport, files []fixture, n int, dur time.Duration
 			rep.violate("samefile", "the same fs.File processed again AFTER the concurrent runs no longer gives its result", d.name)
 		}
 	}
-	return map[string]any{"documents": len(docs), "runs": runs, "goroutines": n}
+	// different documents at the same time: texts that every project normalises on its way (annotations and schema notes with
+	// tabs and runs of blanks, descriptions with CR LF, quoted parameters with escapes) may not leak from one project into another
+	mixed := make([]*doc, 0, 12)
+	for i := 0; i < 12; i++ {
+		t := fmt.Sprintf("JSIGHT 0.3\nINFO\n  Title \"project \\\"%02d\\\"\"\n  Description\r\n    text of   project %02d\r\n    second\tline %02d\r\nTAG @t%02d //   tag\tof   %02d  \n"+
+			"GET /p%02d // project-%02d\t get   %02d for  all\n  Tags @t%02d\n  200 // answer\t%02d   x\n    {\n      \"k\": %d // note   of\t%02d  here\n    }\n", i, i, i, i, i, i, i, i, i, i, i, i)
+		d := &doc{name: fmt.Sprintf("samefile-mixed-%02d", i), orig: []byte(t)}
+		solo, ok := runFile(fs.NewFile("mixed.jst", append([]byte(nil), d.orig...)))
+		if !ok {
+			rep.violate("samefile", "document is not accepted alone: "+string(solo), d.name)
+			continue
+		}
+		d.solo = solo
+		mixed = append(mixed, d)
+	}
+	var mruns int64
+	if len(mixed) > 1 {
+		deadline := time.Now().Add(per)
+		var wg sync.WaitGroup
+		var once sync.Once
+		for g := 0; g < n; g++ {
+			g := g
+			wg.Add(1)
+			go func() {
+				defer wg.Done()
+				for i := 0; i == 0 || time.Now().Before(deadline); i++ {
+					d := mixed[(g*5+i)%len(mixed)]
+					got, ok := runFile(fs.NewFile("mixed.jst", append([]byte(nil), d.orig...)))
+					atomic.AddInt64(&mruns, 1)
+					if !ok || !(bytes.Equal(got, d.solo) || knownExampleOnly(got, d.solo)) {
+						once.Do(func() {
+							at := 0
+							if ok {
+								at = firstDiff(got, d.solo)
+							}
+							rep.violate("samefile", fmt.Sprintf("a document processed while OTHER documents are processed does not give its result alone (byte %d): ...%s... alone ...%s...", at, around(got, at), around(d.solo, at)), d.name)
+						})
+					}
+				}
+			}()
+		}
+		wg.Wait()
+	}
+	return map[string]any{"documents": len(docs), "runs": runs, "goroutines": n, "mixed_documents": len(mixed), "mixed_runs": mruns}
 }
